@@ -160,6 +160,9 @@ def run(ctx, rep) -> None:
     rep.attempt("buffer_views", buffer_views, ctx, rep, "C07.3", [HSDP])
     rep.attempt("typing_sites", typing_sites, ctx, rep, "C07.3", {"distributed_shampoo.utils.shampoo_hsdp_distributor", "distributed_shampoo.utils.shampoo_fsdp_distributor"}, {"distributed_shampoo.utils.shampoo_hsdp_distributor": 8, "distributed_shampoo.utils.shampoo_fsdp_distributor": 2})
     rep.attempt("_dist_remask", _dist_remask, ctx, rep, "C07.3", HSDP)
+    from .c04 import stateful_cursors_advance
+
+    rep.attempt("stateful_cursors_advance", stateful_cursors_advance, ctx, rep, "C07.3")
     rep.attempt("_dist_remask", _dist_remask, ctx, rep, "C07.3", FSDP, 2)
     rep.attempt("sibling_pairs", sibling_pairs, ctx, rep, "C07.3", [p for p in dist_pairs() if HSDP in p[:2]])
     rep.attempt("block_keys", block_keys, ctx, rep, "C07.4")
